@@ -254,34 +254,29 @@ InCell(p, v, c) == \A a \in Axes : /\ c[a] * Pitch(p, a) - p.tol <= v[a]
 AxisCells(p, x, a) == IF OnLat(p, x, a) THEN {Near(p, x, a) - 1, Near(p, x, a)} ELSE {Flo(p, x, a)}
 CellsAt(p, v) == AxisCells(p, v[1], 1) \X AxisCells(p, v[2], 2) \X AxisCells(p, v[3], 3)
 (* An open edge is legitimate while both its ends lie on a face shared with a  *)
-(* straddling cell that is still to come.  Its deadline is the highest rank of  *)
-(* a straddling cell containing both ends (-1 when there is none); it is stored *)
-(* with the edge when the edge enters `bnd` (elements <<from, to, deadline>>),   *)
-(* so that the invariant is an integer comparison.                               *)
-EdgeDeadline(p, V, a, b) ==
-  LET rs == {Rank(p, c) : c \in {c \in CellsAt(p, V[a]) \cap CellsAt(p, V[b]) : InGridCell(p, c) /\ CellStraddles(p, c)}}
-  IN IF rs = {} THEN -1 ELSE CHOOSE r \in rs : \A x \in rs : x <= r
-OpenEdgeOK(p, V, e, l) == EdgeDeadline(p, V, e[1], e[2]) > l
-SweepInvAt(b, l) == \A e \in b : e[3] > l
-SweepInv == SweepInvAt(bnd, last)                                  \* the inductive invariant
-DeadlinesRight(p, V) == \A e \in bnd : e[3] = EdgeDeadline(p, V, e[1], e[2])
+(* straddling cell that is still to come.                                       *)
+Unprocessed(p, c, l) == InGridCell(p, c) /\ Rank(p, c) > l /\ CellStraddles(p, c)
+OpenEdgeOK(p, V, e, l) == \E c \in CellsAt(p, V[e[1]]) \cap CellsAt(p, V[e[2]]) : Unprocessed(p, c, l)
+SweepInvAt(p, V, b, l) == \A e \in b : OpenEdgeOK(p, V, e, l)
+SweepInv(p, V) == SweepInvAt(p, V, bnd, last)                      \* the inductive invariant
 (* the patch of cell c uses only vertices of that cell *)
 PatchLocal(p, V, c, patch) ==
   /\ InGridCell(p, c)
   /\ \A i \in DOMAIN patch : \A j \in 1..3 : patch[i][j] \in DOMAIN V /\ InCell(p, V[patch[i][j]], c)
   /\ (patch # <<>> => CellStraddles(p, c))
-CanProcess(p, c, patch) == /\ Rank(p, c) > last
-                           /\ Cardinality(DirEdges(patch)) = 3 * Len(patch)
-                           /\ DirEdges(patch) \cap seen = {}
-BndAfter(p, V, patch) ==
-  LET u == bnd \cup {<<e[1], e[2], EdgeDeadline(p, V, e[1], e[2])>> : e \in DirEdges(patch)}
-  IN {e \in u : <<e[2], e[1], e[3]>> \notin u}
-ProcessCellTo(p, c, patch, nb) ==       \* nb = BndAfter(p, V, patch), computed once by the caller
-  /\ CanProcess(p, c, patch)
-  /\ seen' = seen \cup DirEdges(patch)
+(* the step on the patch's directed edges N (n faces); callers that need N more than once bind it *)
+CanProcessE(p, c, n, N) == /\ Rank(p, c) > last            \* cells are visited in sweep order
+                           /\ Cardinality(N) = 3 * n        \* no directed edge twice in the patch
+                           /\ N \cap seen = {}              \* nor emitted before
+BndWith(N) == LET u == bnd \cup N IN {e \in u : <<e[2], e[1]>> \notin u}
+ProcessCellE(p, c, n, N, nb) ==         \* nb = BndWith(N)
+  /\ CanProcessE(p, c, n, N)
+  /\ seen' = seen \cup N
   /\ bnd' = nb
   /\ last' = Rank(p, c)
-ProcessCell(p, V, c, patch) == ProcessCellTo(p, c, patch, BndAfter(p, V, patch))
+CanProcess(p, c, patch) == CanProcessE(p, c, Len(patch), DirEdges(patch))
+BndAfter(patch) == BndWith(DirEdges(patch))
+ProcessCell(p, c, patch) == ProcessCellE(p, c, Len(patch), DirEdges(patch), BndAfter(patch))
 SweepClosed == bnd = {}          \* with `seen` duplicate free this is ClosedManifold of the whole mesh
 
 (* ---- a reference mesher (design level) -------------------------------------------- *)
